@@ -11,7 +11,7 @@ RULE = ("NetSpecs from the full feature lattice with non-negative samples (all b
         "fields equal to the corresponding differences, exactly).  Non-trivial: >= 50 events, records of >= 2 types and >= 1 "
         "record with positive wait or positive blocked time; distinct by spec digest.")
 ASSUMPTIONS = ["exact float equality is used because oracle and code perform the identical subtraction on identical operands"]
-WALL = {"quick": 50, "thorough": 540}
+WALL = {"quick": 150, "thorough": 540}
 
 
 def nontrivial(a, spec, res):
@@ -28,4 +28,4 @@ def subchecks(tier):
     prof.weights["exact"] = 0.1
     prof.excluded = tuple(prof.excluded) + ("exact_low_precision",)
     return [system_subcheck("lattice", prof, lambda spec: [TimeFlow()], nontrivial, classes=classes,
-                            n={"quick": 4000, "thorough": 60000}, rule="full lattice; clock + record monitor after every event")]
+                            n={"quick": 12000, "thorough": 60000}, rule="full lattice; clock + record monitor after every event")]
